@@ -58,6 +58,33 @@ func runC18(c *Ctx) {
 						return false, "parameter " + l.Param.Name() + " of " + fnName(l.Param.Parent()) + " is not the request's order id at every call site"
 					}
 				case leafFieldLoad:
+					// a field of a struct that was passed in by value (parameters grouped into a struct): follow it to
+					// the value stored into that field where the struct was built, at every call site
+					if prm := paramBehind(l.Base); prm != nil && derefStruct(prm.Type()) != nil {
+						field := l.Field
+						var viaParam func(prm *ssa.Parameter, d int) bool
+						viaParam = func(prm *ssa.Parameter, d int) bool {
+							if d > 5 {
+								return false
+							}
+							ok, und := p.closedOverCallers(prm, func(arg ssa.Value, _ ssa.Instruction) bool {
+								if pb := paramBehind(arg); pb != nil {
+									return viaParam(pb, d+1) // handed on unchanged
+								}
+								fv := structFieldValue(arg, field)
+								if fv == nil {
+									return false
+								}
+								g, _ := okOID(fv, depth+1)
+								return g
+							})
+							return ok && !und
+						}
+						if !viaParam(prm, depth) {
+							return false, "field " + field + " of parameter " + prm.Name() + " of " + fnName(prm.Parent()) + " is not the request's order id at every call site"
+						}
+						continue
+					}
 					return false, "field " + l.Field
 				default:
 					return false, l.V.String()
